@@ -80,6 +80,7 @@ func runC02(p *Prog, r *Report) {
 	precedenceRule(p, r, "C02.R10", "SkipCopy")
 	derefOwnershipRule(p, r, "C02.R11", chains)
 	allocatorContractRule(p, r, "C02.R12")
+	targetPointerNonNilRule(p, r, "C02.R13")
 }
 
 // vocabularyRule (C02.R1, shared as C01.R8): the closed vocabulary of emitted operators and constructs.
